@@ -52,6 +52,7 @@ type Case struct {
 	Peer      string          `json:"peer"`      // script | service
 	Steps     [][]interface{} `json:"steps"`
 	Hook      bool            `json:"hook"` // the case needs the hooks
+	Pool      bool            `json:"pool"` // real service: Handler.Pool is a small worker pool (2 workers, queue of 8)
 	// reverse
 	Rev *RevCase `json:"rev,omitempty"`
 }
@@ -520,9 +521,38 @@ type service struct {
 	stop func()
 }
 
-func newService(kind string, rs *runState) (*service, error) {
+// smallPool: a core.WorkerPool with two workers and a queue of eight; every task takes a moment, so that with
+// tens of requests in flight tasks do wait in the queue
+type smallPool struct{ q chan func() }
+
+func newSmallPool() *smallPool {
+	p := &smallPool{q: make(chan func(), 8)}
+	for i := 0; i < 2; i++ {
+		go func() {
+			for f := range p.q {
+				time.Sleep(300 * time.Microsecond)
+				f()
+			}
+		}()
+	}
+	return p
+}
+
+func (p *smallPool) Submit(f func()) { p.q <- f }
+
+func newService(kind string, rs *runState, pool bool) (*service, error) {
 	s := &service{rs: rs}
 	svc := rpc.NewService()
+	if pool {
+		switch kind {
+		case "tcp", "unix":
+			rpc.SocketHandler(svc).Pool = newSmallPool()
+		case "udp":
+			rpc.UDPHandler(svc).Pool = newSmallPool()
+		case "ws":
+			rpc.WebSocketHandler(svc).Pool = newSmallPool()
+		}
+	}
 	svc.Use(core.IOHandler(func(ctx context.Context, req []byte, next core.NextIOHandler) ([]byte, error) {
 		k := callerOf(req)
 		e := ev("svc-recv")
@@ -777,7 +807,7 @@ func Run(c *Case) *Obs {
 	var err error
 	for attempt := 0; attempt < 3; attempt++ {
 		if c.Peer == "service" {
-			s, err = newService(c.Transport, rs)
+			s, err = newService(c.Transport, rs, c.Pool)
 			if err == nil {
 				url = s.url
 			}
